@@ -1,0 +1,8 @@
+//go:build verif
+// +build verif
+
+package rpc
+
+import "unsafe"
+
+func verifID(pc *persistConn) uintptr { return uintptr(unsafe.Pointer(pc)) }
